@@ -29,8 +29,8 @@ of three named exits, each witnessed):
   as a defect; see the MANIFEST note.
 
 Sub-directories inside the checkpoint directory (`Env.isDir`) — in particular one with a well-formed checkpoint name —
-are part of "every initial directory": they never change the result; they are NOT removed by the final clear
-(`remove_file` fails on them, `.ok()`), so "clean after success" is about own-named regular FILES
+are part of "every initial directory": they never change the result; they are skipped by all three scans (regular files only), hence NOT
+removed by the final clear, so "clean after success" is about own-named regular FILES
 (`ckpt_clean_after_success`, `own_named_directory_survives`).
 -/
 namespace IB.CheckpointRun
@@ -171,7 +171,7 @@ theorem ckpt_outcome_cases (env : Env) (cfg : Config) (fs : FS) (chain : List (N
     (env.dirCreatable = false ∧ (execSeqCkpt env cfg fs chain).outcome = .setupFailed .createDir) ∨
     (env.dirCreatable = true ∧ cfg.autoRecover = true ∧ env.dirListable = false ∧
       (execSeqCkpt env cfg fs chain).outcome = .setupFailed .readDir) ∨
-    ∃ name bytes e, cfg.autoRecover = true ∧ latest true (seqPid env chain.length) fs = some name ∧
+    ∃ name bytes e, cfg.autoRecover = true ∧ latestD env.isDir (seqPid env chain.length) fs = some name ∧
       env.isDir name = false ∧ read fs name = some bytes ∧ load env.H env.dec bytes = .error e ∧ kills e = true ∧
       (execSeqCkpt env cfg fs chain).outcome = .died e := by
   cases hc : env.dirCreatable with
@@ -199,7 +199,7 @@ theorem ckpt_outcome_cases_par (concat : List P → P) (env : Env) (cfg : Config
     (env.dirCreatable = false ∧ (execParCkpt concat env cfg fs chain n).outcome = .setupFailed .createDir) ∨
     (env.dirCreatable = true ∧ cfg.autoRecover = true ∧ env.dirListable = false ∧
       (execParCkpt concat env cfg fs chain n).outcome = .setupFailed .readDir) ∨
-    ∃ name bytes e, cfg.autoRecover = true ∧ latest true (parPid env chain.length n) fs = some name ∧
+    ∃ name bytes e, cfg.autoRecover = true ∧ latestD env.isDir (parPid env chain.length n) fs = some name ∧
       env.isDir name = false ∧ read fs name = some bytes ∧ load env.H env.dec bytes = .error e ∧ kills e = true ∧
       (execParCkpt concat env cfg fs chain n).outcome = .died e := by
   cases hc : env.dirCreatable with
@@ -227,7 +227,7 @@ theorem ckpt_outcome_cases_par (concat : List P → P) (env : Env) (cfg : Config
 theorem recovery_only_hurts_through_load (env : Env) (cfg : Config) (hdir : DirUsable env cfg) (fs : FS)
     (chain : List (Node P)) :
     (execSeqCkpt env cfg fs chain).outcome = .finished (execSeq chain) ∨
-    ∃ name bytes e, cfg.autoRecover = true ∧ latest true (seqPid env chain.length) fs = some name ∧
+    ∃ name bytes e, cfg.autoRecover = true ∧ latestD env.isDir (seqPid env chain.length) fs = some name ∧
       read fs name = some bytes ∧ load env.H env.dec bytes = .error e ∧ kills e = true ∧
       (execSeqCkpt env cfg fs chain).outcome = .died e := by
   rcases ckpt_outcome_cases env cfg fs chain with h | ⟨h, _⟩ | ⟨_, h1, h2, _⟩ | ⟨name, bytes, e, h1, h2, _, h3, h4, h5, h6⟩
@@ -459,13 +459,25 @@ theorem own_named_directory_survives (env : Env) (cfg : Config) (fs : FS) (chain
   rw [← other_entries_untouched env cfg fs chain] at h1
   exact ((mem_clearD _ _ _ f).mp h1).1
 
-/-- when the newest own-named entry is a sub-directory, recovery reads nothing from it: `load_checkpoint` fails in
-    `read_to_end`, which is only logged -/
-theorem recovery_on_directory_only_logs (env : Env) (hl : env.dirListable = true) (cfg : Config)
-    (hrec : cfg.autoRecover = true) (pid : Bytes) (fs : FS) (name : Name) (hlatest : latest true pid fs = some name)
-    (hd : env.isDir name = true) : recover env cfg pid fs = .ok .unreadable := by
-  unfold recover
-  simp [hrec, hl, hlatest, readD, hd]
+/-- recovery never looks at a sub-directory: the scan of `find_latest_checkpoint` takes regular files only, so "the
+    latest" is never a directory (before the C12 fix "scans take regular files only" it could be, and
+    `load_checkpoint` then failed in `read_to_end` — `Checkpoint.Legacy.latestWithDirs`) -/
+theorem recovery_never_picks_a_directory (env : Env) (pid : Bytes) (fs : FS) (name : Name)
+    (hlatest : latestD env.isDir pid fs = some name) :
+    env.isDir name = false ∧ isOwn pid name = true ∧ name ∈ names fs := by
+  exact latestD_some env.isDir pid fs name hlatest
+
+/-- an own-named sub-directory with the greatest stamp does not hide the regular files from recovery: the latest is
+    computed as if the sub-directories were not there -/
+theorem recovery_skips_directories (env : Env) (pid : Bytes) (fs : FS) :
+    latestD env.isDir pid fs = latest true pid (fs.filter (fun f => !env.isDir f.1)) := by
+  unfold latestD latest latestWith names ownFile
+  simp only [Bool.not_true, Bool.false_eq_true, if_false]
+  congr 2
+  induction fs with
+  | nil => rfl
+  | cons f fs ih =>
+    cases hd : env.isDir f.1 <;> cases ho : isOwn pid f.1 <;> simp [hd, ho, ih]
 
 /-! ### the side effect that is NOT confined to "its own" run: equal-length pipelines share an id
 
@@ -596,7 +608,7 @@ theorem legacy_decoder_recovery_dies (H : Bytes → Bytes) (clock : Nat → Nat)
     have hli : env.dirListable = true := rfl
     have hnd : ∀ n, env.isDir n = false := fun _ => rfl
     simp only [Bool.not_true, Bool.false_eq_true, if_false, hli]
-    rw [latest_single_own _ 5 (by decide)]
+    rw [latestD_noDirs _ hnd, latest_single_own _ 5 (by decide)]
     simp only [readD, hnd, Bool.false_eq_true, if_false, read_single]
     show (match load H (Checkpoint.Legacy.cfg mem) [253, 0, 0, 0, 0, 0, 0, 0, 128] with
       | .ok s => Except.ok (RecLog.loaded s)
